@@ -228,6 +228,18 @@ def run_episodes(ctx, case, env, get_inner, multi, after_reset):
         steps = n if cut is None else min(cut, n)
         for k in range(steps):
             a, b = hist[k] if k < len(hist) else (0, 0)
+            if not multi and k == 1 and len(hist) % 3 == 0:
+                # a planner deep-copies the environment, looks ahead on the
+                # copy, and the copy's observations mirror ITS OWN graph
+                import copy
+
+                clone = copy.deepcopy(env)
+                act_c = legal_action(clone, 0, 0, 1)
+                ob_c, _r, _d, _t, _i = clone.step(act_c)
+                check_mirror(ctx, clone, ob_c, f"episode {ep} step {k}: deep copy of the env after its own step {act_c}")
+                ob_o = env.get_observation()
+                check_mirror(ctx, env, ob_o, f"episode {ep} step {k}: original env after its deep copy stepped")
+                ctx.count("env_deepcopies")
             act = legal_action(inner, a >> 1, b, a & 1)
             ob, reward, done, truncated, info = env.step(act)
             where = f"episode {ep} step {k} action {act}"
